@@ -1,4 +1,103 @@
-import FiddleModel.Model.Graph
+/-
+C07 — copies are faithful and independent (copy, deepcopy, pickle, cast).
+
+Model: `Model/Copy.lean`. Object identity is the heap index, so "shares no Buildable,
+container or tag set" is a statement about indices: the deep copy of a heap of size `n` lives
+entirely at indices ≥ n and refers only to indices ≥ n, while the original keeps its indices
+and contents. "Editing the copy never changes what the original reports" is the frame theorem
+`C07_original_stable`: *whatever* is done to objects at indices ≥ n, every path query from an
+original object answers as before. Tag sets are values inside the objects of the model (the
+Python code must copy the `set` objects to get this; the correspondence check is what looks at
+the identity of the real tag sets, argument dicts and history lists).
+Single-Buildable edit histories after a copy are covered by the ArgStore model (the
+correspondence of this property's flat stage).
+-/
+import FiddleModel.Lemmas.CopyL
+
 namespace Fiddle
-theorem C07_placeholder : True := trivial
+
+/-- The original is untouched by the copy: same objects at the same indices. -/
+theorem C07_deepcopy_keeps_original (h : Heap) (i : Nat) (hi : i < h.length) :
+    (h.deepcopy)[i]? = h[i]? := deepcopy_orig h i hi
+
+/-- Faithful, object by object: the copy of object `i` has the same kind, callable, Buildable
+    type, signature, tags, default objects and argument keys as object `i` ... -/
+theorem C07_deepcopy_same_node (h : Heap) (i : Nat) (o : GObj) (ho : h[i]? = some o) :
+    ∃ o', (h.deepcopy)[i + h.length]? = some o' ∧ o'.kind = o.kind ∧ o'.ty = o.ty ∧
+      o'.bk = o.bk ∧ o'.sig = o.sig ∧ o'.tags = o.tags ∧
+      o'.children.map (·.1) = o.children.map (·.1) := by
+  refine ⟨shiftObj h.length o, by rw [deepcopy_copy, ho]; rfl, rfl, rfl, rfl, rfl, rfl, ?_⟩
+  simp [shiftObj, List.map_map, Function.comp]
+
+/-- ... and path for path: following any path in the copy leads to the copy of what the same
+    path leads to in the original (identical arguments *and* identical sharing: two paths meet
+    in the copy exactly when they meet in the original). -/
+theorem C07_deepcopy_faithful (h : Heap) (root : GVal) (p : Path) :
+    followPath h.deepcopy (shiftVal h.length root) p =
+      (followPath h root p).map (shiftVal h.length) := followPath_deepcopy h p root
+
+theorem shiftVal_injective (n : Nat) (a b : GVal) (e : shiftVal n a = shiftVal n b) : a = b := by
+  cases a <;> cases b <;> simp [shiftVal] at e ⊢ <;> omega
+
+/-- same sharing, stated outright -/
+theorem C07_deepcopy_same_sharing (h : Heap) (root : GVal) (p q : Path) :
+    followPath h.deepcopy (shiftVal h.length root) p = followPath h.deepcopy (shiftVal h.length root) q ↔
+      followPath h root p = followPath h root q := by
+  rw [C07_deepcopy_faithful, C07_deepcopy_faithful]
+  constructor
+  · intro e
+    cases hp : followPath h root p <;> cases hq : followPath h root q <;> simp [hp, hq] at e ⊢
+    exact shiftVal_injective _ _ _ e
+  · intro e; rw [e]
+
+/-- Independent: an object of the copy refers only to objects of the copy. -/
+theorem C07_deepcopy_disjoint (h : Heap) (i : Nat) (o' : GObj)
+    (ho : (h.deepcopy)[i + h.length]? = some o') (c : PElem × GVal) (hc : c ∈ o'.children)
+    (j : Nat) (hj : c.2 = .ref j) : h.length ≤ j := by
+  rw [deepcopy_copy] at ho
+  cases hi : h[i]? with
+  | none => simp [hi] at ho
+  | some o =>
+    simp only [hi, Option.map_some, Option.some.injEq] at ho
+    subst ho
+    simp only [shiftObj, List.mem_map] at hc
+    obtain ⟨c0, _, rfl⟩ := hc
+    cases h0 : c0.2 with
+    | atom t => simp [h0, shiftVal] at hj
+    | ref k => simp [h0, shiftVal] at hj; omega
+
+/-- Editing a copy — any change whatsoever to objects allocated after the original — never
+    changes what the original reports: every path from an original object gives the same
+    answer. -/
+theorem C07_original_stable (h h2 : Heap) (wf : h.WellFormed)
+    (hag : ∀ i, i < h.length → h2[i]? = h[i]?) (i : Nat) (hi : i < h.length) (p : Path) :
+    followPath h2 (.ref i) p = followPath h (.ref i) p :=
+  followPath_agree h h2 wf h.length hag p (.ref i) (by intro k hk; cases hk; exact hi)
+
+/-- Shallow copies (`copy.copy`, `copy_with`, `cast`): one new top-level Buildable; the
+    argument values themselves stay shared (same indices), tags and callable are kept, the
+    Buildable type is the requested one for a cast. -/
+theorem C07_shallow_copy (h : Heap) (i : Nat) (bk : Option String) (o : GObj) (ho : h[i]? = some o) :
+    ∃ o', (h.shallowCopy i bk)[h.length]? = some o' ∧ o'.children = o.children ∧
+      o'.tags = o.tags ∧ o'.ty = o.ty ∧ o'.sig = o.sig ∧ o'.bk = bk.getD o.bk ∧
+      ∀ k, k < h.length → (h.shallowCopy i bk)[k]? = h[k]? :=
+  ⟨_, shallowCopy_new h i bk o ho, rfl, rfl, rfl, rfl, rfl, fun k hk => shallowCopy_orig h i bk k hk⟩
+
+/-- ... and its arguments and tags can then be edited without affecting the original: the new
+    object is a different object (`h.length ≠ i`), so the frame theorem applies. -/
+theorem C07_shallow_copy_is_new (h : Heap) (i : Nat) (o : GObj) (ho : h[i]? = some o) :
+    i < h.length := (List.getElem?_eq_some_iff.mp ho).1
+
+/-! ## Non-vacuity -/
+
+private def g : Heap :=
+  [ { kind := .list, children := [(.index 0, .atom "1")] },
+    { kind := .cfg, ty := "f", bk := "Config", children := [(.attr "a", .ref 0), (.attr "b", .ref 0)],
+      tags := [(.name "a", [2])] } ]
+
+example : g.WellFormed ∧
+    (g.deepcopy)[3]?.map (·.children) = some [(.attr "a", .ref 2), (.attr "b", .ref 2)] ∧
+    followPath g.deepcopy (.ref 3) [.attr "a", .index 0] = some (.atom "1") :=
+  ⟨Heap.wellFormed_of_B g (by decide), by decide, by decide⟩
+
 end Fiddle
